@@ -203,7 +203,7 @@ def w_cases(pid, tier, seed, job):
             continue
         # bin content: every 4-byte frame distinct enough (position stamp)
         binb = stamp_bin(total)
-        lines = CG.decorate(rng, sheet, rng.choice([None, "lower"]), rng.random() < 0.3, False, blanks=rng.randint(0, 2), junk=rng.randint(0, 2))
+        lines = CG.decorate(rng, sheet, rng.choice([None, "lower"]), rng.random() < 0.3, rng.random() < 0.3, blanks=rng.randint(0, 2), junk=rng.randint(0, 2))
         text = "\n".join(lines) + "\n"
         case = {"cue": lines, "bin_len": total}
         # model windows
